@@ -12,6 +12,7 @@ import TakVerif.Lemmas.ServerProgress
 import TakVerif.Lemmas.ServerTrace
 import TakVerif.Lemmas.ServerObs
 import TakVerif.Lemmas.ServerLeave
+import TakVerif.Lemmas.ServerLeaveProgress
 
 namespace Tak.C17
 
@@ -375,6 +376,24 @@ theorem C17_leave_fifo_progress {cap : Nat} {f : P → R} {as₀ as : List (LAct
     exact arrived_mono_run this r hmem
   exact C17_leave_stayers_served hall hmem' hstay hans
 
+/-- The bound for the whole line, parked callers included, with departures: under fair admission
+    AMONG THE CALLERS THAT ARE STILL THERE (the first parked caller that has not left enters first;
+    asyncio skips cancelled putters) a caller standing at index `k` of `order` — the line, in which
+    a request whose caller left keeps its place until its batch is done, then the parked callers
+    still present — holds its response after at most `k + 1` further completed model calls, unless
+    it leaves.  Callers leaving ahead of it only shorten its wait. -/
+theorem C17_leave_fifo_progress_putters {cap : Nat} {f : P → R} {as₀ as : List (LAction P)}
+    {s s' : LState P R} (hr₀ : lrun cap f linit as₀ = some s) {k : Nat} {r : Req P}
+    (hmem : r ∈ s.base.arrived) (hk : s.order[k]? = some r.id)
+    (hfair : fairLRun cap f s as = true) (hr : lrun cap f s as = some s')
+    (hc : k + 1 ≤ completes (eraseLeaves as)) (hstay : r.id ∉ s'.gone) :
+    (r.id, f r.position) ∈ s'.delivered := by
+  have hinv : Inv f s.base := inv_reachable (lrun_project hr₀)
+  rcases lprogress as s s' k r.id hinv hfair hk hr hc with hans | hgone
+  · exact C17_leave_stayers_served (lrun_append hr₀ hr)
+      (arrived_mono_run (lrun_project hr) r hmem) hstay hans
+  · exact absurd hgone hstay
+
 /-- When the event loop is idle — the line is empty and every caller still parked has left —
     every caller that stayed holds the response for its own position. -/
 theorem C17_leave_quiescent {cap : Nat} {f : P → R} {as : List (LAction P)} {s : LState P R}
@@ -443,6 +462,15 @@ def exLeave : List (LAction (List Nat)) :=
 example : (lrun 1 exF linit exLeave).map (fun s =>
       (s.delivered, s.base.answered, s.gone, ids s.base.putters, ids s.base.line)) =
     some ([(12, 9)], [(10, 3), (12, 9)], [10, 11], [11], []) := by decide
+
+/-- hypotheses of `C17_leave_fifo_progress_putters`: after the first four actions (11 has left
+    while parked) caller 12 stands at index 1 of `order = [10, 12]` although it is the second
+    parked caller; the rest of the execution is fair among the callers still there (12 enters
+    first) and completes two batches -/
+example : (lrun 1 exF linit (exLeave.take 4)).map (fun s =>
+      (s.order, s.order[1]?, ids s.base.putters, fairLRun 1 exF s (exLeave.drop 4),
+        completes (eraseLeaves (exLeave.drop 4)))) =
+    some ([10, 12], some 12, [11, 12], true, 2) := by decide
 
 /-- the caller that left while parked cannot enter any more -/
 example : (lrun 1 exF linit (exLeave.take 6 ++ [.act .complete, .act (.enter 0)])).isNone = true := by
